@@ -128,6 +128,11 @@ SEQ_POINT = [R(point.noeff1), R(point.keyeq1), R(find.find1), R(find.ord1), R(sl
 SEQ_SCAN = [R(seq.cmp3), R(enc.cmp_shape), R(enum1.enum1), R(iterrules.iter2), R(lambda cfg: point.desc1(cfg, which='seek')), R(iterrules.vis1), R(lambda cfg: point.type1(cfg, which='scan')), R(iterrules.stack1)]
 
 
+def _qsbr_roots(m):
+    s = m.get('sig', '')
+    return s.startswith(('unodb::qsbr_per_thread::', 'unodb::qsbr::', 'unodb::qsbr_thread::'))
+
+
 def _olc_point_roots(m):
     s = m.get('sig', '')
     return s.startswith('unodb::olc_db<') and '::iterator' not in s and any(('::%s(' % n) in s for n in ('get_internal', 'insert_internal', 'remove_internal', 'try_get', 'try_insert', 'try_remove', 'get', 'insert', 'remove'))
@@ -241,11 +246,11 @@ PROPERTIES['C04'] = {
     'configs': two,
     'rules': [olc('LOCK-1'), olc('LOCK-5'), R(olcrules.lock6), R(olcrules.lock6b),
               R(qsbr.q_free_paths), R(qsbr.q_rotation), R(qsbr.q_barriers), R(lambda cfg: qsbr.q_orphans(cfg, parts=('7', '9'))), R(qsbr.q_tagging), R(qsbr.q_last_out), R(qsbr.q_register_epoch), R(qsbr.q_wrap), R(qstate.qs1),
-              R(lambda cfg: qsbr.q_rotation(cfg, parts=('3',))), R(qsbr.q_cas), R(lambda cfg: qsbr.q_orphans(cfg, parts=('8',))), R(qsbr.q_tail_link), R(qsbr.q_sink), R(ptr.ptr3), R(point.lock11), olc_side(R(lambda cfg: nodes.mut1(cfg, parts=('reclaim',))))],
+              R(lambda cfg: qsbr.q_rotation(cfg, parts=('3',))), R(qsbr.q_cas), R(lambda cfg: qsbr.q_orphans(cfg, parts=('8',))), R(qsbr.q_tail_link), R(qsbr.q_sink), R(qsbr.q_list_rmw), R(ptr.ptr3), R(point.lock11), olc_side(R(lambda cfg: nodes.mut1(cfg, parts=('reclaim',))))],
     'technique': 'static analysis: relational typestate dataflow (validate-before-dereference, obsolete-before-retire), who-may-construct rule for immediate-deleter owners; the QSBR who-may-free / ordering / control-dependence rules of C05',
     'explanation': 'Structural safety conditions of "no use of reclaimed memory": LOCK-1 (no pointer obtained from a node is followed before the read section on that node is re-validated, so a stale pointer to a retired node is never dereferenced) '
                    'and LOCK-5 (every node an OLC operation hands to reclamation was unlocked-and-obsoleted by it first, so readers still holding a section on it restart; checked at restart returns too - a node retired and then abandoned by a restart is still linked), on every path of every OLC function, both key kinds; '
-                   'LOCK-6 (in the OLC instantiation an existing node is never wrapped in an owner with the immediate deleter outside the single-threaded teardown: ever-reachable nodes are freed only through QSBR); LOCK-6b (the reclaiming deleters hand exactly the node they were given, with its size, to on_next_epoch_deallocate and free nothing themselves). The second half of the property - what was retired is not freed before every reader that might hold it has quiesced - rests on the QSBR safety generators, which are therefore checked here too: Q-1,2,3,4,5,7,9,10,11,12,14,17, QS-1 (see C05); and the last clause - every unlinked node is freed exactly once - on the linearity rules of C06 (Q-3, Q-6, Q-8, Q-13, Q-15/16) and on MUT-1 (reclaim part, OLC instantiation: the remove of every node class hands the unlinked leaf to the reclaiming deleter exactly once). PTR-3 the span handed out by get() reproduces the data / size of the value view; LOCK-11 no definitive result after a failed lock step.',
+                   'LOCK-6 (in the OLC instantiation an existing node is never wrapped in an owner with the immediate deleter outside the single-threaded teardown: ever-reachable nodes are freed only through QSBR); LOCK-6b (the reclaiming deleters hand exactly the node they were given, with its size, to on_next_epoch_deallocate and free nothing themselves). The second half of the property - what was retired is not freed before every reader that might hold it has quiesced - rests on the QSBR safety generators, which are therefore checked here too: Q-1,2,3,4,5,7,9,10,11,12,14,17, QS-1 (see C05); and the last clause - every unlinked node is freed exactly once - on the linearity rules of C06 (Q-3, Q-6, Q-8, Q-13, Q-15/16, Q-19) and on MUT-1 (reclaim part, OLC instantiation: the remove of every node class hands the unlinked leaf to the reclaiming deleter exactly once). PTR-3 the span handed out by get() reproduces the data / size of the value view; LOCK-11 no definitive result after a failed lock step.',
     'decides': 'validate-before-dereference; obsolete-before-retire; deferred free only; the local generators of the two-epoch delay of QSBR',
     'does_not_decide': 'the global epoch invariant of QSBR under all interleavings (as C05); eventual reclamation as liveness',
 }
@@ -353,12 +358,12 @@ PROPERTIES['C05'] = {
 PROPERTIES['C06'] = {
     'level': 'other',
     'configs': stats_axis,
-    'rules': [R(lambda cfg: qsbr.q_rotation(cfg, parts=('3',))), R(qsbr.q_cas), R(lambda cfg: qsbr.q_orphans(cfg, parts=('7', '8'))), R(qsbr.q_tail_link), R(qsbr.q_register_epoch), R(qsbr.q_tagging), R(qsbr.q_sink), R(qstate.qs1)],
+    'rules': [R(lambda cfg: qsbr.q_rotation(cfg, parts=('3',))), R(qsbr.q_cas), R(lambda cfg: qsbr.q_orphans(cfg, parts=('7', '8'))), R(qsbr.q_tail_link), R(qsbr.q_register_epoch), R(qsbr.q_tagging), R(qsbr.q_sink), R(qstate.qs1), R(qsbr.q_list_rmw), scoped(R(exc.exc1), _qsbr_roots, 'QSBR thread start / resume / deferred-deallocation request')],
     'technique': 'static analysis: linearity (exactly-one-sink) dataflow on request containers, CAS-loop shape rule (published value recomputed from the expected value on every retry), type-level non-copyability check',
     'explanation': 'Exactly-once as linearity of the request containers: Q-3 no request list is overwritten while it may hold requests, the new requests are consumed into the current list; '
                    'Q-6 every CAS on the packed state word publishes helper(expected) recomputed after each failed attempt (no lost thread-count update), register increments and unregister decrements the count, paused follows (un)registration, '
                    'a push onto an orphan list links the node to the very head the CAS expects on every retry; Q-7 every orphan list taken by the epoch changer reaches exactly one sink (freed / published / appended on CAS failure), '
-                   'add_to_orphan_list returns only on empty input or CAS success, every exit of unregister_thread passes through orphan_pending_requests, which hands each private list to its own orphan list once; Q-8 requests are not copyable, deferred_requests neither copyable nor movable; Q-11 a new request joins the current-interval list only under last_seen_epoch == fresh epoch and is handed to advance_last_seen_epoch (which drops its argument when the epoch was already seen) only under last_seen_epoch != fresh epoch - the same field the callee tests; Q-13 a store into the next link of an orphan-list node links a private node being pushed or the tail (entered from a test that found the link null) - never a node that may have successors; Q-14 a registering thread that could only bump the thread count returns the NEW epoch (guarded by a test that a freshly read epoch differs), so the per-epoch thread bookkeeping never underflows; QS-1 the state-word helpers the CAS loops publish (inc / dec of the thread count, with or without the previous-epoch count, with or without the epoch advance) move exactly their fields by exactly one (bit-field abstract interpretation, all field values); Q-15 the end of the pipeline really frees: qsbr::deallocate calls free_aligned on its pointer argument and deallocation_request::deallocate hands its own pointer to qsbr::deallocate, on every path; Q-16 qsbr_resume assigns every per-thread bookkeeping field the constructor initialises, with the same value (last seen epochs from register_thread(), quiescent-state counter 0) - a resumed thread with a stale counter never leaves the previous epoch, the epoch stalls and nothing is freed any more.',
+                   'add_to_orphan_list returns only on empty input or CAS success, every exit of unregister_thread passes through orphan_pending_requests, which hands each private list to its own orphan list once; Q-8 requests are not copyable, deferred_requests neither copyable nor movable; Q-11 a new request joins the current-interval list only under last_seen_epoch == fresh epoch and is handed to advance_last_seen_epoch (which drops its argument when the epoch was already seen) only under last_seen_epoch != fresh epoch - the same field the callee tests; Q-13 a store into the next link of an orphan-list node links a private node being pushed or the tail (entered from a test that found the link null) - never a node that may have successors; Q-14 a registering thread that could only bump the thread count returns the NEW epoch (guarded by a test that a freshly read epoch differs), so the per-epoch thread bookkeeping never underflows; QS-1 the state-word helpers the CAS loops publish (inc / dec of the thread count, with or without the previous-epoch count, with or without the epoch advance) move exactly their fields by exactly one (bit-field abstract interpretation, all field values); Q-19 the two shared orphan-list heads change only by compare_exchange or exchange(nullptr), never by a plain store (a take that is load + store loses the nodes pushed in between); EXC-1 (QSBR functions only) a thread registers itself (the global thread count moves) only after the last allocation of its start / resume that can fail, so a failed resume leaves the count equal to the threads actually running and the epoch can still advance; Q-15 the end of the pipeline really frees: qsbr::deallocate calls free_aligned on its pointer argument and deallocation_request::deallocate hands its own pointer to qsbr::deallocate, on every path; Q-16 qsbr_resume assigns every per-thread bookkeeping field the constructor initialises, with the same value (last seen epochs from register_thread(), quiescent-state counter 0) - a resumed thread with a stale counter never leaves the previous epoch, the epoch stalls and nothing is freed any more.',
     'decides': 'no request lost or duplicated on any path of rotation, orphaning and orphan hand-over; thread-count bookkeeping',
     'does_not_decide': 'the bound "freed no later than the third quiescent round" and getter equalities at quiescent points (schedule-dependent)',
 }
